@@ -3,6 +3,7 @@
 package netpoll
 
 import (
+	"context"
 	"errors"
 	"sync/atomic"
 	"syscall"
@@ -113,10 +114,12 @@ func verifWriteReady(op *FDOperator, vs [][]byte, ivs []syscall.Iovec) {
 //  4: scenario 0 plus a peer hang-up reported by the poller at any moment (connection without
 //     callbacks: only the hang-up can wake the flusher)
 //  5: scenario 1 with two further goroutines calling Flush concurrently
+//  6: scenario 4 with an OnDisconnect callback that waits for the application's flusher to
+//     return: the flusher's wake-up must not depend on the callback having returned
 //
 //verif:po
-//verif:bounds 1-2 Flush calls of k in [1, 1<<20] bytes (scenarios 2, 4, 5: k in [1,4], space <= 4, drain <= 8), socket space symbolic, <= 2 write-ready dispatches, 1 peer drain, timer may expire twice; output buffer summarised on its length; state revisits <= 3
-//verif:param 0 5
+//verif:bounds 1-2 Flush calls of k in [1, 1<<20] bytes (scenarios 2, 4, 5, 6: k in [1,4], space <= 4, drain <= 8), socket space symbolic, <= 2 write-ready dispatches, 1 peer drain, timer may expire twice; output buffer summarised on its length; state revisits <= 3
+//verif:param 0 6
 //verif:loop 40
 //verif:poloop 3
 //verif:potimeout 400
@@ -143,6 +146,12 @@ func verifHarness_C08_flush(sc int) {
 		vt = verifTimerOf(c.writeTimer)
 		c.writeTimeout = time.Second
 	}
+	flusherGone := make(chan struct{}, 1)
+	if sc == 6 {
+		c.onDisconnectCallback.Store(OnDisconnect(func(ctx context.Context, conn Connection) {
+			<-flusherGone
+		}))
+	}
 	k1 := verifNondetInt("k1")
 	verifAssume(k1 >= 1)
 	verifAssume(k1 <= lim)
@@ -157,6 +166,9 @@ func verifHarness_C08_flush(sc int) {
 			verifFlushCall(c, k2, vt, "C08/flush2")
 		}
 		atomic.StoreInt32(&verifS.flushDone, 1)
+		if sc == 6 {
+			flusherGone <- struct{}{}
+		}
 		verifReach("flusher-done")
 	})
 	verifThread("poller", func() {
@@ -185,7 +197,7 @@ func verifHarness_C08_flush(sc int) {
 	case 5:
 		verifThread("flusher2", second)
 		verifThread("flusher3", second)
-	case 4:
+	case 4, 6:
 		verifThread("hup", func() {
 			p := op.poll.(*defaultPoll)
 			if op.do() {
